@@ -637,20 +637,21 @@ var execPkgPrefixes = []string{
 }
 
 var execPkgs = map[string]bool{
-	"errors":        true,
-	"slices":        true,
-	"cmp":           true,
-	"sort":          true,
-	"strings":       true,
-	"bytes":         true,
-	"strconv":       true,
-	"unicode/utf8":  true,
-	"unicode/utf16": true,
-	"unicode":       true,
-	"io":            true,
-	"math":          true,
-	"math/bits":     true,
-	"fmt":           false,
+	"errors":                        true,
+	"internal/stringslite":          true,
+	"slices":                        true,
+	"cmp":                           true,
+	"sort":                          true,
+	"strings":                       true,
+	"bytes":                         true,
+	"strconv":                       true,
+	"unicode/utf8":                  true,
+	"unicode/utf16":                 true,
+	"unicode":                       true,
+	"io":                            true,
+	"math":                          true,
+	"math/bits":                     true,
+	"fmt":                           false,
 	"github.com/antlr4-go/antlr/v4": true,
 }
 
@@ -794,7 +795,13 @@ func (e *Engine) callBuiltin(caller *frame, fn *ssa.Builtin, args []Value) Value
 			}
 		case Slice:
 			if len(x) > 0 {
-				e.unsupported("clear of slice")
+				st, ok := fn.Type().(*types.Signature).Params().At(0).Type().Underlying().(*types.Slice)
+				if !ok {
+					e.unsupported("clear of slice of unknown element type")
+				}
+				for i := range x {
+					x[i] = e.zero(st.Elem())
+				}
 			}
 		}
 		return nil
